@@ -1,2 +1,3 @@
 pub mod adoc;
 pub mod genes;
+pub mod hist;
